@@ -424,8 +424,36 @@ def eqsib_item(rng):
     e = ['O', op, args]
     return {'kind': 'simp', 'e': e, 'variants': variants(rng, e, 5), 'lax': True}
 
+def affs_item(rng):
+    """An assignment list handed to eval_instr directly (a client's own instruction semantics): two or three stores
+    through one base whose cells overlap or coincide, and a register written twice.  Which store wins on the shared
+    bytes is decided by list order - never by the process."""
+    base = rng.choice(['esi', 'esp', 'ebx'])
+    n = rng.choice([2, 2, 3])
+    d0 = rng.choice([-8, -4, 0, 4])
+    affs = []
+    for k in range(n):
+        w = rng.choice([8, 16, 32, 32])
+        d = d0 + rng.choice([0, 1, 2, 3, 3, 4])
+        src = rng.choice(['eax', 'ecx', 'edx', 'ebp'])
+        s_ = ['D', src, 32, False, True]
+        if w != 32:
+            s_ = ['S', s_, 0, w]
+        addr = ['D', base, 32, False, True] if d == 0 else ['O', '+', [['D', base, 32, False, True], r_int(d)]]
+        affs.append(['=', ['M', addr, w, None, False], s_])
+    if rng.random() < 0.4:
+        r = rng.choice(['eax', 'edx'])
+        affs.append(['=', ['D', r, 32, False, True], ['D', 'ecx', 32, False, True]])
+        affs.insert(rng.randrange(len(affs)), ['=', ['D', r, 32, False, True], ['D', 'ebp', 32, False, True]])
+    return {'kind': 'affs', 'affs': affs, 'base': base, 'lo': d0 - 2, 'hi': d0 + 9}
+
 def workload(seed, n):
     items = workload0(seed, n)
+    for idx, it in enumerate(items):
+        if it['kind'] == 'sets':
+            r2 = random.Random('%d/%d/affs' % (seed, idx))
+            if r2.random() < 0.35:
+                items[idx] = affs_item(r2)
     for idx, it in enumerate(items):
         if it['kind'] == 'simp':
             r2 = random.Random('%d/%d/eqsib' % (seed, idx))
